@@ -318,6 +318,20 @@ class Formatter:
         return f"@@L{node.lineno}"
 
     @final
+    def escape_str_value(self, value: str) -> str:
+        """Escapes the characters that can't appear as they are inside a double quoted
+        string literal. The escape sequences used are valid in C, Go and Python.
+        """
+        escaping = {
+            "\\": "\\\\",
+            '"': '\\"',
+            "\n": "\\n",
+            "\r": "\\r",
+            "\t": "\\t",
+        }
+        return "".join(escaping.get(char, char) for char in value)
+
+    @final
     def format_value(self, value: Value) -> str:
         """Format value to its string representation."""
         if value is True or value is False:
